@@ -294,6 +294,7 @@ class SimReactor(object):
     self.escaped_errors = []
     self.call_errors = 0
     self.thread_joiner = None    # callable: block until pool threads exit
+    self.waker = None            # callable: wake the reactor thread (callFromThread)
 
   # ---- plumbing --------------------------------------------------------------
   def attach(self, clock, ctx):
@@ -394,6 +395,9 @@ class SimReactor(object):
 
   def callFromThread(self, f, *a, **kw):
     self.from_thread.append((f, a, kw))
+    self.ctxlog('callFromThread')
+    if self.waker:
+      self.waker()
 
   def suggestThreadPoolSize(self, n):
     pass
